@@ -235,11 +235,29 @@ fn rewrite_case(u: &mut Choices, sz: Size) -> CaseResult {
             }
         }
     }
+    let which = u.below(2);
+    // one type-block case in ten: a document without resources (`Resources` empty or absent); the
+    // two spellings must still agree
+    let mut types = doc_types(&doc);
+    if which == 0 && u.chance(1, 10) {
+        if let V::Map(m) = &mut doc {
+            if u.chance(1, 2) {
+                m.retain(|(k, _)| k != "Resources");
+            } else {
+                for (k, x) in m.iter_mut() {
+                    if k == "Resources" {
+                        *x = V::Map(vec![]);
+                    }
+                }
+            }
+        }
+    }
     let doc_text = doc.to_json();
     let mut g = PGen::new(&doc, scaled(u, sz));
     g.wide = false;
-    let types = doc_types(&doc);
-    let which = u.below(2);
+    if types.is_empty() {
+        types = doc_types(&doc);
+    }
     let (a, b, what) = if which == 0 {
         let ty = if !types.is_empty() && u.chance(4, 5) { types[u.below(types.len())].clone() } else { "AWS::No::Such".to_string() };
         let res_ctx: Option<V> = doc.get("Resources").and_then(|r| match r {
@@ -315,7 +333,7 @@ fn rewrite_case(u: &mut Choices, sz: Size) -> CaseResult {
             evals,
             sample: Some(json!({"a": a, "b": b, "doc": doc_text})),
         }),
-        Err((msg, sig)) => CaseResult::Fail(Failure { msg: format!("{}: {}", what, msg), sig: format!("{}:{}", sig, if which == 0 { "type-block" } else { "default-rule" }), case: json!({"canonical": a, "variant": b, "docs": [doc_text], "tree": false}) }),
+        Err((msg, sig)) => CaseResult::Fail(Failure { msg: format!("{}: {}", what, msg), sig: format!("{}:{}{}", sig, if which == 0 { "type-block" } else { "default-rule" }, if which == 0 && !matches!(doc.get("Resources"), Some(V::Map(m)) if !m.is_empty()) { ":document-without-resources" } else { "" }), case: json!({"canonical": a, "variant": b, "docs": [doc_text], "tree": false}) }),
     }
 }
 
